@@ -27,12 +27,21 @@ CHECKS = {
  "C08": ("executable-model monitor (three-valued map), exhaustive on bounded universes + random flagged trees",
          "All 7056 pairs of V1, 10^6 sampled (all 4.98e7 in thorough) pairs of V2 and random flagged trees: result mapped to deepest-cell states and compared with the documented tables; well-formedness checked.",
          "trusted: bm.rs model; tables from the operators' documentation", "DESIGN.md §4 C08"),
+ "C09": ("invariant walker over every BMOC of random operator histories built on the outputs of all producers (online structural monitor)",
+         "Programs of 1-6 operators (not/and/or/xor) over BMOCs produced by cone / custom cone / elliptical cone / polygon (both modes) queries at depths 0..29 and by both builders; every initial, intermediate and final BMOC is walked: entry encoding, order, disjointness, agreement of into_iter / flat_iter / flat_iter_cell / to_flat_array / deep_size / size_hint / to_ranges (disjoint, non-adjacent).",
+         "trusted: bm.rs independent decoding; flat views compared only when the deep size is <= 2e5", "DESIGN.md §4 C09"),
  "C10": ("exhaustive bijection + ordering monitor on small depths, ring-boundary classes deeper; reference = integer RING decode",
          "All RING/NESTED indices of depths <= 8 (quick) / <= 10 (thorough) and ring-boundary classes of depths up to 29 are pushed through to_ring/from_ring/ring::center and judged against an exact-integer RING decoder, the reference cell centres and the ordering rule.",
          "trusted: refm.rs ring_decode (u128 + integer sqrt), reference centres", "DESIGN.md §4 C10"),
  "C11": ("reference-model monitor over every cell of small nsides, boundary classes of 40 hostile nsides, and hostile positions (runtime oracle)",
          "ring::center/vertices/sph_coo/hash/hash_with_dxdy for every cell of nside 1..40 (1..300 thorough), ring-boundary classes of primes / 2^k+-1 / huge nsides up to 2^29, and the hostile position set x 41 nsides are judged against the integer RING decoder and reference projection: containment, ordering, ring sizes, round trips, rejections.",
          "trusted: refm.rs ring_decode + projection; containment tolerance 1e-14 plane units", "DESIGN.md §4 C11"),
+ "C12": ("oracle monitor over generated convex / star polygons (half-space reference), crash attribution through last-case files",
+         "Generated polygons (3-9 vertices, both windings, R from 1e-10 to 0.79 rad at matched depths, crossing lon=0 / seams / transition latitude, never near a pole) through polygon_coverage (approx and exact) and Polygon::contains: no panic or abnormal exit, well formed, vertex cells covered, full flags honest for convex polygons, tightness for R < 0.3, contains == geometric definition. Known findings R17 (R < 1e-6 rad) and R21 (exact mode, edge crossing lon=0 in a polar cap) are reported under exact signatures.",
+         "trusted: refm.rs convex half-space oracle; Layer::hash (C01)", "DESIGN.md §4 C12"),
+ "C13": ("oracle monitor over generated elliptical cones + witness oracle in the circular case",
+         "Generated ellipses (a from 1e-10 rad to 0.999 pi/2 incl. threshold radii, b/a in [0.05,1], a third circular, all depths, delta 0..3): no panic, well formed, centre cell covered, tightness a + 2 cell radii, circular => cone witness oracle, a >= pi/2 rejected by both entry points. R5 reported under its signature.",
+         "trusted: Layer::hash (C01); 1.08/nside cell radius bound", "DESIGN.md §4 C13"),
  "C14": ("model-based monitor: expected border walk from a reference bit-interleave, expected external ring from neighbours of the deep border cells (runtime oracle)",
          "internal_edge(_sorted), internal_corner, internal_edge_part, external_edge(_sorted|_struct) and their free-function wrappers are compared, for every cell of small depths with delta<=4/6 and for all seam classes of every deeper depth (delta up to depth+delta=29), with sets/walks built independently; duplicates, order, labels and counts are all judged.",
          "trusted: refm.rs interleave; Layer::neighbours (judged geometrically by C04) + 1% geometric spot checks", "DESIGN.md §4 C14"),
@@ -51,6 +60,9 @@ CHECKS = {
  "C19": ("invariant monitor over generated positions (quadrants of all cell classes, missing-neighbour cells, seams, hostile positions)",
          "Every bilinear_interpolation result for positions in the four quadrants / centre / quadrant boundaries of class-sampled cells of every depth (all 24 missing-neighbour cells per depth) and for the hostile position set is judged: weights >= 0 and summing to 1, cells = containing cell or its neighbours, centre weight, weighted mean of centres (reference offsets), zero-weight entry next to three-cell points.",
          "trusted: refm.rs containment/offsets; Layer::neighbours (C04)", "DESIGN.md §4 C19"),
+ "C20": ("race detectors (Miri many-seeds, ThreadSanitizer) + exactly-once / same-object / same-result monitors over recorded concurrent first-use executions",
+         "A small program releases N threads from a barrier into their first get_or_create(depth) (same depth and mixed depths, both lazy tables), records enter/return stamps and completion orders, and asserts pointer identity, equality with single-threaded results and construction count == 1 (hook). It is executed under Miri with many scheduler seeds (data-race/UB oracle), under ThreadSanitizer in fresh processes, and natively; evidence reports calls, overlapping calls and distinct completion orders observed.",
+         "trusted: Miri / TSan happens-before race detection; schedules are sampled, not enumerated", "DESIGN.md §4 C20"),
  "C02": ("exact differential monitor across the 30 depths (runtime oracle)",
          "For every generated position the 30 hashes are compared bit for bit (consecutive depths and against depth 29). Exact oracle, sampled inputs concentrated on cell borders.",
          "trusted: none beyond integer comparison; inputs are sampled", "DESIGN.md §4 C02"),
